@@ -5,6 +5,7 @@ package NoKV
 import (
 	sym "github.com/feichai0017/NoKV/internal/verifsym"
 	"github.com/feichai0017/NoKV/kv"
+	"github.com/feichai0017/NoKV/utils"
 )
 
 // ---- inductive step on the transaction oracle ----
@@ -46,11 +47,43 @@ func c03Keyset(name string) [2]bool {
 	return [2]bool{true, true}
 }
 
+// verifC03NextMark: where the read watermark stands once the committer's own
+// read mark has retired. Inside the engine (*WaterMark).Done is replaced by
+// verifC03MarkDone (the watermark itself is C32's subject); natively the real
+// watermark is armed so that the real Done has exactly that effect.
+var verifC03NextMark uint64
+
+func verifC03MarkDone(w *utils.WaterMark, index uint64) { w.SetDoneUntil(verifC03NextMark) }
+
+// c03ArmReadMark: the read watermark stands at M, the committer reads at r > M;
+// when its mark retires the watermark moves to next, which is either M (an
+// older reader is still active) or anything >= r (every reader up to next has
+// finished: the later ones began and ended while the committer was running).
+func c03ArmReadMark(o *oracle, M, r, next uint64) (unpin func()) {
+	sym.Assume(sym.Or(sym.And(next == M, r > M+1), next >= r))
+	verifC03NextMark = next
+	o.readMark.SetDoneUntil(M)
+	unpin = func() {}
+	if sym.Symbolic() {
+		return
+	}
+	if next == M {
+		o.readMark.Begin(M + 1)
+		unpin = func() { o.readMark.Done(M + 1) }
+	}
+	o.readMark.Begin(r)
+	if next > r {
+		o.readMark.Begin(next)
+		o.readMark.Done(next)
+	}
+	return
+}
+
 func c03Txn(o *oracle, tag string, lo uint64) (*Txn, [2]bool, [2]bool) {
 	reads, writes := c03Keyset(tag+"_reads"), c03Keyset(tag+"_writes")
 	readTs := sym.U64(tag + "_read_ts")
 	sym.Assume(readTs > lo && readTs < 100)
-	t := &Txn{readTs: readTs, update: true, doneRead: true, conflictKeys: map[uint64]struct{}{}}
+	t := &Txn{readTs: readTs, update: true, doneRead: false, conflictKeys: map[uint64]struct{}{}}
 	for k := 0; k < 2; k++ {
 		if reads[k] {
 			t.reads = append(t.reads, c03FP[k])
@@ -122,10 +155,12 @@ func VerifC03OracleStep() {
 	// the read watermark has moved to M >= L since the last clean-up
 	M := sym.U64("read_mark")
 	sym.Assume(M >= L && M < 95)
-	o.readMark.SetDoneUntil(M)
 
-	// first committer (active => readTs > M)
+	// first committer (active => readTs > M); its read mark retires inside newCommitTs
 	t1, reads1, writes1 := c03Txn(o, "t1", M)
+	M1 := sym.U64("read_mark_after_t1")
+	sym.Assume(M1 < 99)
+	unpin := c03ArmReadMark(o, M, t1.readTs, M1)
 	ts1, conflict1 := o.newCommitTs(t1)
 	sym.Assert(conflict1 == c03WantConflict(hist, t1.readTs, reads1), "conflict-iff-read-key-committed-after-read-ts")
 	if !conflict1 {
@@ -134,10 +169,16 @@ func VerifC03OracleStep() {
 	}
 	// the watermark may move again (other readers finish), never past an active reader
 	M2 := sym.U64("read_mark_2")
-	sym.Assume(M2 >= M && M2 < 99)
-	o.readMark.SetDoneUntil(M2)
+	sym.Assume(M2 >= M1 && M2 < 99)
+	if conflict1 { // a conflicting commit keeps its read mark until Discard
+		o.doneRead(t1)
+	}
+	unpin()
 	// second committer
 	t2, reads2, _ := c03Txn(o, "t2", M2)
+	M3 := sym.U64("read_mark_after_t2")
+	sym.Assume(M3 < 99)
+	_ = c03ArmReadMark(o, M2, t2.readTs, M3)
 	ts2, conflict2 := o.newCommitTs(t2)
 	sym.Assert(conflict2 == c03WantConflict(hist, t2.readTs, reads2), "conflict-iff-read-key-committed-after-read-ts")
 	if !conflict2 {
